@@ -99,7 +99,7 @@ class _Ctl:
 
 def make_stimulus(desc, rng):
     w, pol, phase, csh, kind = desc["w"], desc["pol"], desc["phase"], desc["csh"], desc["kind"]
-    budget = 2500 if w <= 16 else 4500
+    budget = 1500 if w <= 16 else 3000
     if kind == 3:     # unstructured noise
         p = rng.choice([5, 20, 50])
         pc = rng.choice([2, 10, 40])
